@@ -127,10 +127,10 @@ DEF_FN_PRE(fmin, VALUE, template <class A> static bool pre(A a, A b) { return !i
 DEF_FN_PRE(mod, ULPS, template <class A> static bool pre(A x, A y) { return x - x == 0 && y - y == 0 && y != 0; } template <class A> static double mag(A x, A y) { return 2 * std::fabs((double)x) + std::fabs((double)y); })
 struct F_atan2 { template <class... A> static double mag(A...) { return 0; } static const char* name() { return "atan(y,x)"; } enum { CMP = BITS }; template <class A, class B> static auto f(A a, B b) -> decltype(glm::atan(a, b)) { return glm::atan(a, b); } template <class... A> static bool pre(A...) { return true; } };
 DEF_FN_PRE(clamp, BITS, template <class A> static bool pre(A, A lo, A hi) { return !(lo > hi); }) DEF_FN_PRE(fclamp, VALUE, template <class A> static bool pre(A x, A lo, A hi) { return !(lo > hi) && !is_snan(x) && !is_snan(lo) && !is_snan(hi); })
-DEF_FN_PRE(mix, ULPS, template <class A, class B> static bool pre(A x, A y, B a) { return true; } template <class A, class B> static double mag(A x, A y, B a) { return std::fabs((double)x * (1.0 - (double)a)) + std::fabs((double)y * (double)a) + std::fabs((double)x); })
+DEF_FN_PRE(mix, ULPS, template <class A, class B> static bool pre(A x, A y, B a) { return true; } template <class A, class B> static double mag(A x, A y, B a) { return std::fabs((double)x * (1.0 - (double)a)) + std::fabs((double)y * (double)a); })   /* terms of the documented formula x*(1-a) + y*a */
 DEF_FN_PRE(smoothstep, ULPS, template <class A> static bool pre(A e0, A e1, A) { return e0 < e1; }) DEF_FN_PRE(fma, ULPS, template <class... A> static bool pre(A...) { return true; } template <class A> static double mag(A a, A b, A c) { return std::fabs((double)a * (double)b) + std::fabs((double)c); })
 // integer functions
-DEF_FN(bitCount, BITS) DEF_FN(findLSB, BITS) DEF_FN(findMSB, BITS) DEF_FN(bitfieldReverse, BITS) DEF_FN_PRE(isPowerOfTwo, BITS, template <class A> static bool pre(A x) { return x > 0; })
+DEF_FN(bitCount, BITS) DEF_FN(findLSB, BITS) DEF_FN(findMSB, BITS) DEF_FN(bitfieldReverse, BITS) DEF_FN_PRE(isPowerOfTwo, BITS, template <class A> static bool pre(A x) { return !(std::is_signed<A>::value && x == std::numeric_limits<A>::min()); })   /* vector == scalar for negatives too (abs of the most negative value is undefined) */
 DEF_FN_PRE(nextPowerOfTwo, BITS, template <class A> static bool pre(A x) { return x > 0 && x <= (A)(std::numeric_limits<A>::max() / 2); }) DEF_FN_PRE(prevPowerOfTwo, BITS, template <class A> static bool pre(A x) { return x > 0; })
 DEF_FN_PRE(isMultiple, BITS, template <class A> static bool pre(A, A m) { return m > 0; })
 DEF_FN_PRE(nextMultiple, BITS, template <class A> static bool pre(A x, A m) { return m > 0 && m <= (A)(std::numeric_limits<A>::max() / 4) && x <= (A)(std::numeric_limits<A>::max() - m) && (std::numeric_limits<A>::min() == 0 || x >= (A)(std::numeric_limits<A>::min() + m)); })
@@ -188,6 +188,7 @@ static void op_bool(const Case& c, Outcome& o) { o.cls(0); uint64_t m = c.w[0], 
 template <typename T> static void op_outparam(const Case& c, Outcome& o) { o.cls(0); uint64_t i = c.w[0];
 #define OPL(L, Q) { glm::vec<L, T, Q> v; T a[4]; for (int k = 0; k < L; ++k) { a[k] = pick<T>(i, k, 0); v[k] = a[k]; } glm::vec<L, int, Q> e(0); glm::vec<L, T, Q> ip(0); glm::vec<L, T, Q> m = glm::frexp(v, e), fr = glm::modf(v, ip); \
     for (int k = 0; k < L; ++k) { int es = 0; T is = 0; T ms = glm::frexp(a[k], es), fs = glm::modf(a[k], is); bool fin = a[k] - a[k] == 0; if (!same_bits(m[k], ms) || (fin && e[k] != es) || !same_bits(fr[k], fs) || !same_bits(ip[k], is)) { o.res(bits_of(m[k]), bits_of(fr[k])); o.exp(bits_of(ms), bits_of(fs)); o.bad(L * 4 + QN<Q>::id, "frexp/modf(vec, out vec): component i differs from the scalar overload"); return; } } \
+    { glm::vec<L, T, Q> al = v; glm::vec<L, T, Q> fa = glm::modf(al, al); for (int k = 0; k < L; ++k) { T is = 0; T fs = glm::modf(a[k], is); if (!same_bits(fa[k], fs) || !same_bits(al[k], is)) { o.res(bits_of(fa[k]), bits_of(al[k])); o.exp(bits_of(fs), bits_of(is)); o.bad(100 + L * 4 + QN<Q>::id, "modf(v, v) (output aliases input): component i differs from the scalar overload"); return; } } }\
     glm::vec<L, int, Q> ex; for (int k = 0; k < L; ++k) ex[k] = (int)((i + 7 * k) % 41) - 20; glm::vec<L, T, Q> ld = glm::ldexp(v, ex); for (int k = 0; k < L; ++k) if (!same_bits(ld[k], glm::ldexp(a[k], ex[k]))) { o.res(bits_of(ld[k])); o.exp(bits_of(glm::ldexp(a[k], ex[k]))); o.bad(50 + L * 4 + QN<Q>::id, "ldexp(vec, ivec): component i differs from the scalar overload"); return; } }
   OPL(1, glm::highp) OPL(2, glm::highp) OPL(3, glm::highp) OPL(4, glm::highp) OPL(2, glm::lowp) OPL(3, glm::mediump) OPL(4, glm::lowp) }
 template <typename T> static void op_reduce(const Case& c, Outcome& o) { o.cls(0); uint64_t i = c.w[0];
